@@ -128,25 +128,45 @@ def run_g11(chk, G11, repo):
                           witness='any base model with a block of two etas: the current block structure is not recognised')
 
 
+
+def peripheral_block(am):
+    """the statements that decide whether a PERIPHERALS step is allowed: the body of _is_allowed_peripheral, or - when that
+    helper was folded into its caller - the branch of _is_allowed taken for a PERIPHERALS feature. -> (Func, statements)"""
+    f = am.functions.get('_is_allowed_peripheral')
+    if f is not None:
+        body = [s_ for s_ in f.node.body if not (isinstance(s_, ast.Expr) and isinstance(s_.value, ast.Constant))]
+        return f, body
+    g = am.functions.get('_is_allowed')
+    if g is None:
+        return None, None
+    for I in walk_no_nested(g.node):
+        if isinstance(I, ast.If) and any(isinstance(c, ast.Constant) and c.value == 'PERIPHERALS' for c in ast.walk(I.test)) \
+                and any(isinstance(r, ast.Return) for s_ in I.body for r in ast.walk(s_)) \
+                and any(isinstance(c, ast.Subscript) and isinstance(c.slice, ast.Constant) and c.slice.value == 'n'
+                        for s_ in I.body for c in ast.walk(s_)):
+            return g, list(I.body)
+    return None, None
+
+
 def run_g12(chk, G12, repo):
     from sa import lints
     am = repo.module('pharmpy.tools.modelsearch.algorithms')
-    f = am.functions.get('_is_allowed_peripheral')
     g = am.functions.get('_is_allowed')
+    f, block = peripheral_block(am)
     if f is None or g is None:
         raise AnalysisError('G12: _is_allowed / _is_allowed_peripheral not found')
     prev = next((p for p in f.params if 'prev' in p), None)
     if prev is None:
         raise AnalysisError('G12: parameter with the previous peripheral steps not found')
-    deps = lints.dependence(f.node.body)
-    rets = [n for n in walk_no_nested(f.node) if isinstance(n, ast.Return) and n.value is not None]
+    deps = lints.dependence(block)
+    rets = [n for s_ in block for n in [s_, *walk_no_nested(s_)] if isinstance(n, ast.Return) and n.value is not None]
     if len(rets) < 2:
-        raise AnalysisError('G12: returns of _is_allowed_peripheral not recognised')
+        raise AnalysisError('G12: returns of the PERIPHERALS decision not recognised')
     # the return reached when there are previous peripheral steps is the last one
     last = max(rets, key=lambda r: r.lineno)
     cl = lints.closure(deps, {x.id for x in ast.walk(last.value) if isinstance(x, ast.Name)})
     ok = prev in cl
-    chk.instance(G12, f'_is_allowed_peripheral: `{unparse(last)[:80]}` depends on the previous steps ({prev}): {ok}')
+    chk.instance(G12, f'{f.name} (PERIPHERALS decision): `{unparse(last)[:80]}` depends on the previous steps ({prev}): {ok}')
     if not ok:
         chk.violation(G12, am.rel, f.qualname, unparse(last),
                       'when peripheral steps were already taken the decision does not look at them: any count whose '
@@ -280,7 +300,10 @@ def run_g16_g18(chk, repo):
     lnt = mf.methods.get('least_number_of_transformations') if mf else None
     if lnt is None:
         raise AnalysisError('ModelFeatures.least_number_of_transformations not found')
-    tests = [I for I in ast.walk(lnt.node) if isinstance(I, ast.If) and 'modes' in unparse(I.test)
+    # the helper may be a closure of the method or a module-level function it calls
+    scope16 = [lnt.node] + [h.node for h in pm.functions.values() if h.cls is None and h.parent is None and any(
+        isinstance(c, ast.Call) and isinstance(c.func, ast.Name) and c.func.id == h.name for c in ast.walk(lnt.node))]
+    tests = [I for sc_ in scope16 for I in ast.walk(sc_) if isinstance(I, ast.If) and 'modes' in unparse(I.test)
              and any(isinstance(c, ast.Call) and getattr(c.func, 'id', '') in ('any', 'all') or (
                  isinstance(c, ast.Call) and isinstance(c.func, ast.Attribute) and c.func.attr in ('isdisjoint', 'intersection'))
                  for c in ast.walk(I.test))]
@@ -308,23 +331,50 @@ def run_g16_g18(chk, repo):
     G17 = chk.rule('G17', '_is_allowed_peripheral: only the direct successor of the largest peripheral count already added is '
                           'allowed (finite truth table)', floor=5)
     am = repo.module('pharmpy.tools.modelsearch.algorithms')
-    f = am.functions.get('_is_allowed_peripheral')
+    f, block = peripheral_block(am)
     if f is None:
-        raise AnalysisError('_is_allowed_peripheral not found')
-    # the decision part: from the first statement that tests the list of previous counts
-    names_ = {'n', 'n_all', 'n_prev'}
-    start = next((i for i, s_ in enumerate(f.node.body) if isinstance(s_, (ast.If, ast.Return)) and
+        raise AnalysisError('_is_allowed_peripheral (or the PERIPHERALS branch of _is_allowed) not found')
+    # the three quantities by what they are computed from, whatever they are called: the count asked for (x.keywords['n']), the
+    # counts already added (a comprehension of .keywords['n']) and all counts of the space (a comprehension filtered on
+    # 'PERIPHERALS')
+    def is_n_sub(e):
+        return isinstance(e, ast.Subscript) and isinstance(e.slice, ast.Constant) and e.slice.value == 'n'
+    v_n = v_prev = v_all = None
+    for a_ in [x for s_ in block for x in [s_, *ast.walk(s_)]]:
+        tgt = a_.targets[0] if isinstance(a_, ast.Assign) and len(a_.targets) == 1 else a_.target if isinstance(a_, ast.AnnAssign) else None
+        val = getattr(a_, 'value', None)
+        if not isinstance(tgt, ast.Name) or val is None:
+            continue
+        comp = next((c for c in ast.walk(val) if isinstance(c, (ast.ListComp, ast.GeneratorExp))), None)
+        if is_n_sub(val):
+            v_n = tgt.id
+        elif comp is not None and is_n_sub(comp.elt):
+            v_prev = tgt.id
+        elif comp is not None and any(isinstance(c, ast.Constant) and c.value == 'PERIPHERALS' for c in ast.walk(comp)) \
+                and v_all is None and not any(is_n_sub(x) for x in ast.walk(comp)):
+            v_all = tgt.id
+    # all counts of the space: what the decision takes min() / .index() of
+    used_all = [c.args[0].id for s_ in block for c in ast.walk(s_) if isinstance(c, ast.Call) and dotted(c.func) == 'min'
+                and c.args and isinstance(c.args[0], ast.Name)] + \
+               [c.func.value.id for s_ in block for c in ast.walk(s_) if isinstance(c, ast.Call)
+                and isinstance(c.func, ast.Attribute) and c.func.attr == 'index' and isinstance(c.func.value, ast.Name)]
+    if used_all:
+        v_all = used_all[0]
+    if not (v_n and v_prev and v_all):
+        raise AnalysisError(f'G17: the quantities of the PERIPHERALS decision were not recognised ({v_n}, {v_prev}, {v_all})')
+    names_ = {v_n, v_all, v_prev}
+    start = next((i for i, s_ in enumerate(block) if isinstance(s_, (ast.If, ast.Return)) and
                   {x.id for x in ast.walk(s_) if isinstance(x, ast.Name)} & names_ and not any(
                       isinstance(a, ast.Assign) and any(isinstance(t, ast.Name) and t.id in names_ for t in a.targets)
                       for a in ast.walk(s_))), None)
     if start is None:
         raise AnalysisError('G17: decision part of _is_allowed_peripheral not found')
-    tail = f.node.body[start:]
+    tail = block[start:]
     for n_all, n_prev, n, want in (([1, 2, 3], [1], 2, True), ([1, 2, 3], [1], 3, False), ([1, 2, 3], [], 1, True),
                                    ([1, 2, 3], [], 2, False), ([1, 2, 3], [1, 2], 3, True), ([1, 3], [1], 3, True),
                                    ([1, 2, 3], [2], 1, False)):
         try:
-            got = bool(IS.run_tail(tail, {'n_all': n_all, 'n_prev': n_prev, 'n': n}))
+            got = bool(IS.run_tail(tail, {v_all: n_all, v_prev: n_prev, v_n: n}))
         except (IS.Unknown, ValueError, IndexError, KeyError) as e:
             raise AnalysisError(f'G17: decision part not evaluable: {type(e).__name__} {e}')
         chk.instance(G17, f'counts {n_all}, added {n_prev}, next {n}: allowed {got} (wanted {want})')
